@@ -16,6 +16,7 @@ def opt(name, default=None):
     return default
 REPO = opt('--repo', os.environ.get('ZV_REPO') or os.environ.get('VP_RUN_REPO') or '/repo')
 ONLY = set(opt('--only', '').split(',')) - {''}
+SKIP = set(opt('--skip', '').split(',')) - {''}
 OUT = opt('--out', os.path.join(V, 'mutants_out.md'))
 os.environ['ZV_REPO'] = REPO
 
@@ -172,7 +173,7 @@ M = [
 ]
 
 def sh(cmd, cwd=None, timeout=3000):
-    p = subprocess.run(cmd, shell=True, cwd=cwd, stdout=subprocess.PIPE, stderr=subprocess.STDOUT, text=True, timeout=timeout)
+    p = subprocess.run("timeout %d bash -c %s" % (timeout, json.dumps(cmd)), shell=True, cwd=cwd, stdout=subprocess.PIPE, stderr=subprocess.STDOUT, text=True)
     return p.returncode, p.stdout
 
 def revert():
@@ -184,6 +185,8 @@ revert()
 for (name, ids, f, old, new, what) in M:
     if ONLY and name not in ONLY:
         continue
+    if name in SKIP:
+        continue
     path = os.path.join(REPO, f)
     src = open(path).read()
     if old not in src:
@@ -192,10 +195,10 @@ for (name, ids, f, old, new, what) in M:
         continue
     open(path, "w").write(src.replace(old, new, 1))
     t0 = time.time()
-    rc, out = sh("cargo test --workspace --no-fail-fast --offline 2>&1 | grep -E 'test result|FAILED|error(\\[|:)' | head -8", cwd=REPO)
+    rc, out = sh("timeout 420 cargo test --workspace --no-fail-fast --offline 2>&1 | grep -E 'test result|FAILED|error(\\[|:)' | head -8; pkill -f '%s/target/debug' 2>/dev/null; true" % REPO, cwd=REPO)
     passed = sum(int(x) for x in re.findall(r"(\d+) passed", out))
     failed = sum(int(x) for x in re.findall(r"(\d+) failed", out))
-    tests = "38 pass" if (passed == 38 and failed == 0) else ("does not compile" if "error" in out and passed == 0 else "%d pass / %d fail" % (passed, failed))
+    tests = "38 pass" if (passed == 38 and failed == 0) else ("hangs / fails" if passed + failed < 38 and "error" not in out else None) or ("does not compile" if "error" in out and passed == 0 else "%d pass / %d fail" % (passed, failed))
     verdicts = []
     for i in ids:
         rc, o = sh("./check %s --tier quick" % i, cwd=V)
